@@ -16,6 +16,14 @@ std::vector<size_t> RandomTools::randMultinomial(size_t n, const std::vector<dou
   double r;
   double cumprob;
   vector<size_t> sample(n);
+  // rounding may leave the cumulated probabilities slightly below 1:
+  // such a draw belongs to the last class of non-null probability
+  size_t last = probs.size();
+  for (size_t j = 0; j < probs.size(); ++j)
+  {
+    if (probs[j] > 0)
+      last = j;
+  }
   for (size_t i = 0; i < n; ++i)
   {
     r = RandomTools::giveRandomNumberBetweenZeroAndEntry(1);
@@ -24,15 +32,14 @@ std::vector<size_t> RandomTools::randMultinomial(size_t n, const std::vector<dou
     for (size_t j = 0; test& (j < probs.size()); ++j)
     {
       cumprob += probs[j] / s;
-      if (r <= cumprob)
+      if (r < cumprob)
       {
         sample[i] = j;
         test = false;
       }
     }
-    // This test should never be true if probs sum to one:
     if (test)
-      sample[i] = probs.size();
+      sample[i] = last;
   }
   return sample;
 }
